@@ -195,7 +195,12 @@ def O3(ctx):
         g1 = unreachable_if(body, pl[0], assume_calls({"rt::path::Path::is_traversed": False})) and \
             not unreachable_if(body, pl[0], assume_calls({"rt::path::Path::is_traversed": True}))
         seed = arg_expr(body, pl[1], 1)
-        uses_n = mentions_call(seed, matcher) is not None and "RangeTo" in canon(seed)
+        # the slice handed to push_load is exactly seed[..n] with n the matcher's result
+        uses_n = False
+        for x in subexprs(seed):
+            if x[0] == "agg" and x[1] == "std::ops::RangeTo" and x[3]:
+                end = strip(x[3][0])
+                uses_n = end[0] == "call" and end[1] == matcher
         # the seed buffer handed to the matcher is the one sliced for push_load
         idx = strip(arg_expr(body, cons[1], 2))
         uses_branch = idx[0] == "call" and idx[1] == "rt::path::Path::branch_load"
